@@ -180,6 +180,16 @@ def do_case(case):
             res['input_nf'] = result_nf(X0, case)[0]
         except (NF.Uncanonical, ZeroDivisionError) as ex:
             res['input_uncanon'] = str(ex)[:200]
+        # the behaviour of the open finding rt:oid:twoexp (SymPy fall-back of the inverse transformer returns
+        # exp(-a*t) for exp(-a*abs(t))): the input with Abs dropped inside exponentials, for exact attribution
+        try:
+            e0 = X0.sympy
+            if any(q.args[0].has(sp.Abs) for q in e0.atoms(sp.exp)):
+                e1 = e0.replace(lambda q: isinstance(q, sp.exp) and q.args[0].has(sp.Abs),
+                                lambda q: sp.exp(q.args[0].replace(lambda u: isinstance(u, sp.Abs), lambda u: u.args[0])))
+                res['input_nf_absdropped'] = [NF.nf_json(e1, X0.var, Fraction(x0), Fraction(P), Fraction(sP)) for x0, P, sP in case['points']]
+        except Exception:
+            pass
     cache = {}
     for op in case['ops']:
         r = {}
